@@ -437,3 +437,11 @@ REPLAY = {
     "q_policy.": "c13_heads",
     "value_policy.": "c13_heads",
 }
+
+
+# loop clause: value-based training loops act greedily on their current estimates except with the
+# configured / scheduled exploration probability (training-loop machinery, contracts/loops.py)
+from . import loops as _loops  # noqa: E402
+
+TASKS += _loops.c13_loop_tasks()
+REPLAY["train_"] = "loops_native"
